@@ -122,8 +122,11 @@ def fmod (a b : Float32) : Float32 :=
     let mag : Float32 := (Float32.ofNat r).scaleB e
     if (a.toBits >>> 31) == 1 then -mag else mag
 
-def fmin (a b : Float32) : Float32 := if a.isNaN then b else if b.isNaN then a else if a < b then a else b
-def fmax (a b : Float32) : Float32 := if a.isNaN then b else if b.isNaN then a else if a > b then a else b
+/-- `f32::min` / `f32::max`: a NaN operand is ignored; between equal operands (+0 and -0) the first
+    one is returned (what the x86-64 lowering of the runtime does in both build profiles; Rust leaves
+    the sign of a zero result unspecified — recorded in the trusted base). -/
+def fmin (a b : Float32) : Float32 := if a.isNaN then b else if b.isNaN then a else if b < a then b else a
+def fmax (a b : Float32) : Float32 := if a.isNaN then b else if b.isNaN then a else if b > a then b else a
 
 end F32
 
